@@ -235,8 +235,13 @@ def run_check(check: str, tier: str, seed: int, replay: str | None = None) -> in
             "wall_s": round(wall, 2),
             "violations": len(violations),
         }
-        os.makedirs(os.path.join(common.VERIF, "evidence"), exist_ok=True)
-        with open(os.path.join(common.VERIF, "evidence", f"{check}.json"), "w") as fh:
+        # evidence/<ID>.json describes runs against /repo itself; a run against another tree (a scratch copy with a
+        # deliberate change, VERIF_KRROOD_SRC) leaves its description next to the replay files (not under version control)
+        evidence_dir = os.path.join(common.VERIF, "evidence")
+        if os.path.realpath(common.krrood_src()) != os.path.realpath("/repo/src"):
+            evidence_dir = os.path.join(common.VERIF, "evidence", "replay", "_other_trees")
+        os.makedirs(evidence_dir, exist_ok=True)
+        with open(os.path.join(evidence_dir, f"{check}.json"), "w") as fh:
             json.dump(ev, fh, indent=1, default=repr, sort_keys=True)
 
         for ln in lines:
